@@ -2,7 +2,7 @@
 """install_seed.py <id> <source dir> '<detected json>'  -> /verif/seeded/<id>/{patch.diff,demo.diff,meta.json}"""
 import json, os, shutil, sys, re
 sid, src, det = sys.argv[1], sys.argv[2], json.loads(sys.argv[3])
-dst = os.path.join('/verif/seeded', sid)
+dst = os.path.join(os.environ.get('SEED_DIR','/verif/seeded'), sid)
 os.makedirs(dst, exist_ok=True)
 for f in ('patch.diff', 'demo.diff'):
     shutil.copy(os.path.join(src, f), os.path.join(dst, f))
